@@ -9,9 +9,13 @@ Full strength since the `fix:` commit that stages a response as soon as nothing 
 -/
 namespace IsoMdl.Session
 
+/-- what a completed response is staged as: the encrypted response — or, when the send counter
+is used up, the bare "session encryption error" status message (`Msg.noData`) -/
+def staged (d : Device) (st : Nat) (s : List (Nat × Nat)) : Msg :=
+  if atMax d.encCtr then .noData else .ct false d.sess (bump d.encCtr).toNat (.response st s) false
+
 theorem finalize_st (d : Device) :
-    (∃ s st, d.st = .signing [] s st ∧
-      d.finalizeIfComplete.st = .ready (.ct false d.sess (bump d.encCtr).toNat (.response st s) false)) ∨
+    (∃ s st, d.st = .signing [] s st ∧ d.finalizeIfComplete.st = .ready (staged d st s)) ∨
     ((∀ s st, d.st ≠ .signing [] s st) ∧ d.finalizeIfComplete = d) := by
   unfold Device.finalizeIfComplete
   cases h : d.st with
@@ -19,7 +23,10 @@ theorem finalize_st (d : Device) :
   | ready m => right; exact ⟨(by intro s st hc; cases hc), rfl⟩
   | signing p s st =>
     cases p with
-    | nil => left; exact ⟨s, st, rfl, rfl⟩
+    | nil =>
+      left; refine ⟨s, st, rfl, ?_⟩
+      simp only [staged]
+      split <;> rfl
     | cons a l => right; exact ⟨(by intro s' st' hc; cases hc), rfl⟩
 
 theorem finalize_not_stuck (d : Device) : d.finalizeIfComplete.st.stuck = false := by
@@ -51,8 +58,7 @@ and that document stops being unsigned; when it was the last one the response is
 theorem C13_submit_pairs (d : Device) (doc sig : Nat) (p : List Nat) (s : List (Nat × Nat)) (st : Nat)
     (hst : d.st = .signing p s st) (hn : d.getNext = some doc) :
     ((d.submit sig).st = .signing p.dropLast (s ++ [(doc, sig)]) st ∧ p.dropLast ≠ []) ∨
-    (∃ c, (d.submit sig).st = .ready (.ct false d.sess c (.response st (s ++ [(doc, sig)])) false) ∧
-          p.dropLast = []) := by
+    ((d.submit sig).st = .ready (staged d st (s ++ [(doc, sig)])) ∧ p.dropLast = []) := by
   unfold Device.getNext at hn
   rw [hst] at hn
   simp only at hn
@@ -60,7 +66,10 @@ theorem C13_submit_pairs (d : Device) (doc sig : Nat) (p : List Nat) (s : List (
   rw [hst]
   simp only [attach, hn]
   by_cases hl : p.dropLast = []
-  · right; simp [Device.finalizeIfComplete, hl]
+  · right
+    refine ⟨?_, hl⟩
+    simp only [Device.finalizeIfComplete, hl, staged]
+    split <;> rfl
   · left
     refine ⟨?_, hl⟩
     unfold Device.finalizeIfComplete
@@ -82,11 +91,12 @@ theorem C13_ready_iff (d : Device) (sig : Nat) :
     | none =>
       have : p = [] := by simpa using hp
       subst this
-      simp [Device.finalizeIfComplete]
+      cases he : atMax d.encCtr <;> simp [Device.finalizeIfComplete, he]
     | some doc =>
       simp only
       cases hd : p.dropLast with
-      | nil => simp [Device.finalizeIfComplete, hd]
+      | nil =>
+        cases he : atMax d.encCtr <;> simp [Device.finalizeIfComplete, he, hd]
       | cons a l => simp [Device.finalizeIfComplete, hd]
 
 /-- It is handed out exactly once, after which the device awaits the next request. -/
@@ -113,20 +123,30 @@ theorem C13_noops (d : Device) (sig : Nat) :
 response carrying status 11 or 12 (and no document). -/
 theorem C13_malformed_request_status (d : Device) (n : Nat) (p : Payload)
     (hp : p = .notCbor ∨ p = .notRequest)
-    (hacc : n = (bump d.decCtr).toNat) :
-    ∃ st c, (st = 11 ∨ st = 12) ∧
-      ((d.handleRequest (.ct true d.sess n p false)).1).st = .ready (.ct false d.sess c (.response st []) false) ∧
+    (hacc : n = d.decCtr.toNat + 1) (hn : n < 2^32) :
+    ∃ st, (st = 11 ∨ st = 12) ∧
+      ((d.handleRequest (.ct true d.sess n p false)).1).st = .ready (staged d st []) ∧
       ((d.handleRequest (.ct true d.sess n p false)).1).responseReady = true := by
-  simp only [Device.handleRequest, accepts, hacc]
+  have hm : atMax d.decCtr = false := by
+    cases h : atMax d.decCtr
+    · rfl
+    · have := (atMax_iff _).mp h; omega
+  have hb := bump_toNat _ (not_atMax _ hm)
   rcases hp with rfl | rfl
-  · exact ⟨11, (bump d.encCtr).toNat, Or.inl rfl, by simp [Device.finalizeIfComplete], by simp [Device.finalizeIfComplete, Device.responseReady]⟩
-  · exact ⟨12, (bump d.encCtr).toNat, Or.inr rfl, by simp [Device.finalizeIfComplete], by simp [Device.finalizeIfComplete, Device.responseReady]⟩
+  · refine ⟨11, Or.inl rfl, ?_, ?_⟩ <;>
+      cases he : atMax d.encCtr <;>
+      simp [Device.handleRequest, accepts, hacc, hm, hb, Device.finalizeIfComplete, staged, Device.responseReady, he]
+  · refine ⟨12, Or.inr rfl, ?_, ?_⟩ <;>
+      cases he : atMax d.encCtr <;>
+      simp [Device.handleRequest, accepts, hacc, hm, hb, Device.finalizeIfComplete, staged, Device.responseReady, he]
 
 /-- A response with nothing to sign is retrievable without inventing a signature. -/
 theorem C13_nothing_to_sign_is_ready (d : Device) :
     (d.prepare []).responseReady = true ∧ (d.prepare []).getNext = none ∧
-    ∃ c, ((d.prepare []).retrieve).2 = some (.ct false d.sess c (.response 0 []) false) := by
-  simp [Device.prepare, Device.finalizeIfComplete, Device.responseReady, Device.getNext, Device.retrieve]
+    ((d.prepare []).retrieve).2 = some (staged d 0 []) := by
+  cases he : atMax d.encCtr <;>
+    simp [Device.prepare, Device.finalizeIfComplete, Device.responseReady, Device.getNext,
+      Device.retrieve, staged, he]
 
 /-- FULL-STRENGTH: in every reachable state of every call sequence, a Signing state has an
 unsigned document (it offers a payload); i.e. the response is ready exactly when no unsigned
@@ -136,7 +156,7 @@ theorem C13_step_not_stuck (w : World) (op : Op) (h : w.dev.st.stuck = false) :
   have hwd : ∀ d : Device, (w.withDev d).dev = d := by
     intro d; unfold World.withDev; split <;> rfl
   cases op with
-  | newRequest => exact h
+  | newRequest => simp only [World.step]; split <;> exact h
   | handleRequest m =>
     simp only [World.step, hwd]
     cases m with
@@ -145,12 +165,14 @@ theorem C13_step_not_stuck (w : World) (op : Op) (h : w.dev.st.stuck = false) :
     | ct fr s n p t =>
       simp only [Device.handleRequest]
       split
-      · cases p
-        · exact h
-        · exact finalize_not_stuck _
-        · exact finalize_not_stuck _
-        · exact finalize_not_stuck _
       · exact h
+      · split
+        · cases p
+          · exact h
+          · exact finalize_not_stuck _
+          · exact finalize_not_stuck _
+          · exact finalize_not_stuck _
+        · exact h
   | prepare docs => simp only [World.step, hwd]; exact finalize_not_stuck _
   | getNext => exact h
   | submit sig =>
@@ -200,7 +222,7 @@ theorem C13_refines_diagram (w : World) (op : Op) : Documented w.dev.st (w.step 
     · rw [h2]; exact .respondNow _ _
     · rw [h2]; exact hd
   cases op with
-  | newRequest => exact .refl _
+  | newRequest => simp only [World.step]; split <;> exact .refl _
   | handleRequest m =>
     simp only [World.step, hwd]
     cases m with
@@ -209,16 +231,18 @@ theorem C13_refines_diagram (w : World) (op : Op) : Documented w.dev.st (w.step 
     | ct fr s n p t =>
       simp only [Device.handleRequest]
       split
-      · cases p
-        · exact .refl _
-        · simp [Device.finalizeIfComplete]; exact .respondNow _ _
-        · simp [Device.finalizeIfComplete]; exact .respondNow _ _
-        · simp [Device.finalizeIfComplete]; exact .respondNow _ _
       · exact .refl _
+      · split
+        · cases p
+          · exact .refl _
+          · simp only [Device.finalizeIfComplete]; split <;> exact .respondNow _ _
+          · simp only [Device.finalizeIfComplete]; split <;> exact .respondNow _ _
+          · simp only [Device.finalizeIfComplete]; split <;> exact .respondNow _ _
+        · exact .refl _
   | prepare docs =>
     simp only [World.step, hwd, Device.prepare]
     cases docs with
-    | nil => simp [Device.finalizeIfComplete]; exact .respondNow _ _
+    | nil => simp only [Device.finalizeIfComplete]; split <;> exact .respondNow _ _
     | cons a l => simp [Device.finalizeIfComplete]; exact .prepare _ _ (by simp)
   | getNext => exact .refl _
   | submit sig =>
@@ -233,11 +257,11 @@ theorem C13_refines_diagram (w : World) (op : Op) : Documented w.dev.st (w.step 
       | none =>
         have : p = [] := by simpa using hp
         subst this
-        simp [Device.finalizeIfComplete]; exact .respondNow _ _
+        simp only [Device.finalizeIfComplete]; split <;> exact .respondNow _ _
       | some doc =>
         simp only
         cases hd : p.dropLast with
-        | nil => simp [Device.finalizeIfComplete]; exact .respondNow _ _
+        | nil => simp only [Device.finalizeIfComplete]; split <;> exact .respondNow _ _
         | cons a l =>
           simp only [Device.finalizeIfComplete]
           rw [← hd]
